@@ -304,7 +304,8 @@ func c3structured(c *mc.Ctx, thorough bool, tags *[]string) poly.Sequence {
 		nq := []int{1, 0, 2, 3, 8}[c.Dev(fmt.Sprintf("f%d.qualifiers", i), 5)]
 		// qualifier names are case-sensitive: "note" and "Note" are different keys
 		keys := []string{"gene", "note", "Note", "product", "locus_tag", "db_xref", "function", "codon_start"}
-		vals := []string{"abcD", "a note with / and = inside", "a second note under a capitalised name", "hypothetical protein", "b0001", "GeneID:944742", c3text(150), "1"}
+		paths := "see /usr/share/doc /etc/poly.conf /var/lib/x=1 /a/b/c /opt/tools/bin /home/user/data /tmp/scratch /srv/www /mnt/disk1 /proc/self /dev/null /sys/class /boot/efi /root/.cache /lib64/ld /run/lock"
+		vals := []string{"abcD", "a note with / and = inside", paths, "hypothetical protein", "b0001", "GeneID:944742", c3text(150), "1"}
 		for k := 0; k < nq; k++ {
 			f.Attributes[keys[k]] = vals[k]
 		}
